@@ -134,6 +134,7 @@ package align
 //@ func (NW).alignLetters
 //@   property C09
 //@   property C08
+//@   maypanic
 //@   requires alpha != nil && allocated(idxRef(alpha))
 //@   ensures [pairs] result1 == nil ==> forall k int :: 0 <= k && k < len(result0) ==> wfPair(result0[k], len(rSeq), len(qSeq))
 //@   ensures [illegal-reference] (exists k int :: 0 <= k && k < len(rSeq) && lidx(alpha, rSeq[k]) < 0) ==> result1 != nil
@@ -197,8 +198,6 @@ package align
 //@   loop 8 invariant [scores] forall k int {aln[k]} :: 0 <= k && k < len(aln) ==> aln[k].(*featPair).score == nwOpt(a, alpha, rSeq, qSeq, aln[k].(*featPair).a.end, aln[k].(*featPair).b.end) - nwOpt(a, alpha, rSeq, qSeq, aln[k].(*featPair).a.start, aln[k].(*featPair).b.start)
 //@   loop 8 invariant [chain] forall k int, k2 int {succ(k, k2)} :: 0 <= k && k2 == k + 1 && k2 < len(aln) ==> proving(succ(k, k2)) && aln[k2].(*featPair).a.end == aln[k].(*featPair).a.start && aln[k2].(*featPair).b.end == aln[k].(*featPair).b.start
 //@   loop 8 invariant [tail] forall k int {aln[k]} :: 0 <= k && k == len(aln) - 1 ==> aln[k].(*featPair).a.start == maxI && aln[k].(*featPair).b.start == maxJ
-//@   loop 8 invariant [la] forall x int, y int {old(a[x][y])} :: 0 <= x && x < let && 0 <= y && y < let ==> la[x*let+y] == old(a[x][y])
-//@   loop 8 invariant [here] cell(i, j)
 //@   loop 8 invariant [origin] proving(cell(0, 0)) && nwOpt(a, alpha, rSeq, qSeq, 0, 0) == 0
 //@   loop 9 invariant [scores] forall k int {aln[k]} :: 0 <= k && k < len(aln) ==> aln[k].(*featPair).score == nwOpt(a, alpha, rSeq, qSeq, aln[k].(*featPair).a.end, aln[k].(*featPair).b.end) - nwOpt(a, alpha, rSeq, qSeq, aln[k].(*featPair).a.start, aln[k].(*featPair).b.start)
 //@   loop 9 invariant [chain-done] forall k int, k2 int {succ(k, k2)} :: 0 <= k && k2 == k + 1 && k2 < len(aln) && (k2 < i || k > j) ==> proving(succ(k, k2)) && aln[k].(*featPair).a.end == aln[k2].(*featPair).a.start && aln[k].(*featPair).b.end == aln[k2].(*featPair).b.start
@@ -209,6 +208,7 @@ package align
 //@ func (NW).alignQLetters
 //@   property C09
 //@   property C08
+//@   maypanic
 //@   requires alpha != nil && allocated(idxRef(alpha))
 //@   ensures [pairs] result1 == nil ==> forall k int :: 0 <= k && k < len(result0) ==> wfPair(result0[k], len(rSeq), len(qSeq))
 //@   ensures [illegal-reference] (exists k int :: 0 <= k && k < len(rSeq) && lidx(alpha, rSeq[k].L) < 0) ==> result1 != nil
@@ -272,8 +272,6 @@ package align
 //@   loop 8 invariant [scores] forall k int {aln[k]} :: 0 <= k && k < len(aln) ==> aln[k].(*featPair).score == nwOptQ(a, alpha, rSeq, qSeq, aln[k].(*featPair).a.end, aln[k].(*featPair).b.end) - nwOptQ(a, alpha, rSeq, qSeq, aln[k].(*featPair).a.start, aln[k].(*featPair).b.start)
 //@   loop 8 invariant [chain] forall k int, k2 int {succ(k, k2)} :: 0 <= k && k2 == k + 1 && k2 < len(aln) ==> proving(succ(k, k2)) && aln[k2].(*featPair).a.end == aln[k].(*featPair).a.start && aln[k2].(*featPair).b.end == aln[k].(*featPair).b.start
 //@   loop 8 invariant [tail] forall k int {aln[k]} :: 0 <= k && k == len(aln) - 1 ==> aln[k].(*featPair).a.start == maxI && aln[k].(*featPair).b.start == maxJ
-//@   loop 8 invariant [la] forall x int, y int {old(a[x][y])} :: 0 <= x && x < let && 0 <= y && y < let ==> la[x*let+y] == old(a[x][y])
-//@   loop 8 invariant [here] cell(i, j)
 //@   loop 8 invariant [origin] proving(cell(0, 0)) && nwOptQ(a, alpha, rSeq, qSeq, 0, 0) == 0
 //@   loop 9 invariant [scores] forall k int {aln[k]} :: 0 <= k && k < len(aln) ==> aln[k].(*featPair).score == nwOptQ(a, alpha, rSeq, qSeq, aln[k].(*featPair).a.end, aln[k].(*featPair).b.end) - nwOptQ(a, alpha, rSeq, qSeq, aln[k].(*featPair).a.start, aln[k].(*featPair).b.start)
 //@   loop 9 invariant [chain-done] forall k int, k2 int {succ(k, k2)} :: 0 <= k && k2 == k + 1 && k2 < len(aln) && (k2 < i || k > j) ==> proving(succ(k, k2)) && aln[k].(*featPair).a.end == aln[k2].(*featPair).a.start && aln[k].(*featPair).b.end == aln[k2].(*featPair).b.start
@@ -284,6 +282,7 @@ package align
 //@ func (SW).alignLetters
 //@   property C09
 //@   property C08
+//@   maypanic
 //@   requires alpha != nil && allocated(idxRef(alpha))
 //@   ensures [pairs] result1 == nil ==> forall k int :: 0 <= k && k < len(result0) ==> wfPair(result0[k], len(rSeq), len(qSeq))
 //@   ensures [illegal-reference] len(qSeq) > 0 && (exists k int :: 0 <= k && k < len(rSeq) && lidx(alpha, rSeq[k]) < 0) ==> result1 != nil
@@ -338,7 +337,6 @@ package align
 //@   loop 4 invariant [scores] forall k int {aln[k]} :: 0 <= k && k < len(aln) ==> aln[k].(*featPair).score == swOpt(a, alpha, rSeq, qSeq, aln[k].(*featPair).a.end, aln[k].(*featPair).b.end) - swOpt(a, alpha, rSeq, qSeq, aln[k].(*featPair).a.start, aln[k].(*featPair).b.start)
 //@   loop 4 invariant [chain] forall k int, k2 int {succ(k, k2)} :: 0 <= k && k2 == k + 1 && k2 < len(aln) ==> proving(succ(k, k2)) && aln[k2].(*featPair).a.end == aln[k].(*featPair).a.start && aln[k2].(*featPair).b.end == aln[k].(*featPair).b.start
 //@   loop 4 invariant [tail] forall k int {aln[k]} :: 0 <= k && k == len(aln) - 1 ==> aln[k].(*featPair).a.start == maxI && aln[k].(*featPair).b.start == maxJ
-//@   loop 4 invariant [la] forall x int, y int {old(a[x][y])} :: 0 <= x && x < let && 0 <= y && y < let ==> la[x*let+y] == old(a[x][y])
 //@   loop 4 invariant [origin] proving(cell(0, 0)) && swOpt(a, alpha, rSeq, qSeq, 0, 0) == 0
 //@   loop 5 invariant [scores] forall k int {aln[k]} :: 0 <= k && k < len(aln) ==> aln[k].(*featPair).score == swOpt(a, alpha, rSeq, qSeq, aln[k].(*featPair).a.end, aln[k].(*featPair).b.end) - swOpt(a, alpha, rSeq, qSeq, aln[k].(*featPair).a.start, aln[k].(*featPair).b.start)
 //@   loop 5 invariant [chain-done] forall k int, k2 int {succ(k, k2)} :: 0 <= k && k2 == k + 1 && k2 < len(aln) && (k2 < i || k > j) ==> proving(succ(k, k2)) && aln[k].(*featPair).a.end == aln[k2].(*featPair).a.start && aln[k].(*featPair).b.end == aln[k2].(*featPair).b.start
@@ -359,6 +357,7 @@ package align
 //@ func (SW).alignQLetters
 //@   property C09
 //@   property C08
+//@   maypanic
 //@   requires alpha != nil && allocated(idxRef(alpha))
 //@   ensures [pairs] result1 == nil ==> forall k int :: 0 <= k && k < len(result0) ==> wfPair(result0[k], len(rSeq), len(qSeq))
 //@   ensures [illegal-reference] len(qSeq) > 0 && (exists k int :: 0 <= k && k < len(rSeq) && lidx(alpha, rSeq[k].L) < 0) ==> result1 != nil
@@ -413,7 +412,6 @@ package align
 //@   loop 4 invariant [scores] forall k int {aln[k]} :: 0 <= k && k < len(aln) ==> aln[k].(*featPair).score == swOptQ(a, alpha, rSeq, qSeq, aln[k].(*featPair).a.end, aln[k].(*featPair).b.end) - swOptQ(a, alpha, rSeq, qSeq, aln[k].(*featPair).a.start, aln[k].(*featPair).b.start)
 //@   loop 4 invariant [chain] forall k int, k2 int {succ(k, k2)} :: 0 <= k && k2 == k + 1 && k2 < len(aln) ==> proving(succ(k, k2)) && aln[k2].(*featPair).a.end == aln[k].(*featPair).a.start && aln[k2].(*featPair).b.end == aln[k].(*featPair).b.start
 //@   loop 4 invariant [tail] forall k int {aln[k]} :: 0 <= k && k == len(aln) - 1 ==> aln[k].(*featPair).a.start == maxI && aln[k].(*featPair).b.start == maxJ
-//@   loop 4 invariant [la] forall x int, y int {old(a[x][y])} :: 0 <= x && x < let && 0 <= y && y < let ==> la[x*let+y] == old(a[x][y])
 //@   loop 4 invariant [origin] proving(cell(0, 0)) && swOptQ(a, alpha, rSeq, qSeq, 0, 0) == 0
 //@   loop 5 invariant [scores] forall k int {aln[k]} :: 0 <= k && k < len(aln) ==> aln[k].(*featPair).score == swOptQ(a, alpha, rSeq, qSeq, aln[k].(*featPair).a.end, aln[k].(*featPair).b.end) - swOptQ(a, alpha, rSeq, qSeq, aln[k].(*featPair).a.start, aln[k].(*featPair).b.start)
 //@   loop 5 invariant [chain-done] forall k int, k2 int {succ(k, k2)} :: 0 <= k && k2 == k + 1 && k2 < len(aln) && (k2 < i || k > j) ==> proving(succ(k, k2)) && aln[k].(*featPair).a.end == aln[k2].(*featPair).a.start && aln[k].(*featPair).b.end == aln[k2].(*featPair).b.start
@@ -434,6 +432,7 @@ package align
 //@ func (Fitted).alignLetters
 //@   property C09
 //@   property C08
+//@   maypanic
 //@   requires alpha != nil && allocated(idxRef(alpha)) && len(qSeq) > 0
 //@   ensures [pairs] result1 == nil ==> forall k int :: 0 <= k && k < len(result0) ==> wfPair(result0[k], len(rSeq), len(qSeq))
 //@   ensures [illegal-reference] (exists k int :: 0 <= k && k < len(rSeq) && lidx(alpha, rSeq[k]) < 0) ==> result1 != nil
@@ -500,7 +499,6 @@ package align
 //@   loop 9 invariant [scores] forall k int {aln[k]} :: 0 <= k && k < len(aln) ==> aln[k].(*featPair).score == fitOpt(a, alpha, rSeq, qSeq, aln[k].(*featPair).a.end, aln[k].(*featPair).b.end) - fitOpt(a, alpha, rSeq, qSeq, aln[k].(*featPair).a.start, aln[k].(*featPair).b.start)
 //@   loop 9 invariant [chain] forall k int, k2 int {succ(k, k2)} :: 0 <= k && k2 == k + 1 && k2 < len(aln) ==> proving(succ(k, k2)) && aln[k2].(*featPair).a.end == aln[k].(*featPair).a.start && aln[k2].(*featPair).b.end == aln[k].(*featPair).b.start
 //@   loop 9 invariant [tail] forall k int {aln[k]} :: 0 <= k && k == len(aln) - 1 ==> aln[k].(*featPair).a.start == maxI && aln[k].(*featPair).b.start == maxJ
-//@   loop 9 invariant [la] forall x int, y int {old(a[x][y])} :: 0 <= x && x < let && 0 <= y && y < let ==> la[x*let+y] == old(a[x][y])
 //@   loop 9 invariant [origin] proving(cell(0, 0)) && fitOpt(a, alpha, rSeq, qSeq, 0, 0) == 0
 //@   loop 10 invariant [scores] forall k int {aln[k]} :: 0 <= k && k < len(aln) ==> aln[k].(*featPair).score == fitOpt(a, alpha, rSeq, qSeq, aln[k].(*featPair).a.end, aln[k].(*featPair).b.end) - fitOpt(a, alpha, rSeq, qSeq, aln[k].(*featPair).a.start, aln[k].(*featPair).b.start)
 //@   loop 10 invariant [chain-done] forall k int, k2 int {succ(k, k2)} :: 0 <= k && k2 == k + 1 && k2 < len(aln) && (k2 < i || k > j) ==> proving(succ(k, k2)) && aln[k].(*featPair).a.end == aln[k2].(*featPair).a.start && aln[k].(*featPair).b.end == aln[k2].(*featPair).b.start
@@ -514,6 +512,7 @@ package align
 //@ func (Fitted).alignQLetters
 //@   property C09
 //@   property C08
+//@   maypanic
 //@   requires alpha != nil && allocated(idxRef(alpha)) && len(qSeq) > 0
 //@   ensures [pairs] result1 == nil ==> forall k int :: 0 <= k && k < len(result0) ==> wfPair(result0[k], len(rSeq), len(qSeq))
 //@   ensures [illegal-reference] (exists k int :: 0 <= k && k < len(rSeq) && lidx(alpha, rSeq[k].L) < 0) ==> result1 != nil
@@ -580,7 +579,6 @@ package align
 //@   loop 9 invariant [scores] forall k int {aln[k]} :: 0 <= k && k < len(aln) ==> aln[k].(*featPair).score == fitOptQ(a, alpha, rSeq, qSeq, aln[k].(*featPair).a.end, aln[k].(*featPair).b.end) - fitOptQ(a, alpha, rSeq, qSeq, aln[k].(*featPair).a.start, aln[k].(*featPair).b.start)
 //@   loop 9 invariant [chain] forall k int, k2 int {succ(k, k2)} :: 0 <= k && k2 == k + 1 && k2 < len(aln) ==> proving(succ(k, k2)) && aln[k2].(*featPair).a.end == aln[k].(*featPair).a.start && aln[k2].(*featPair).b.end == aln[k].(*featPair).b.start
 //@   loop 9 invariant [tail] forall k int {aln[k]} :: 0 <= k && k == len(aln) - 1 ==> aln[k].(*featPair).a.start == maxI && aln[k].(*featPair).b.start == maxJ
-//@   loop 9 invariant [la] forall x int, y int {old(a[x][y])} :: 0 <= x && x < let && 0 <= y && y < let ==> la[x*let+y] == old(a[x][y])
 //@   loop 9 invariant [origin] proving(cell(0, 0)) && fitOptQ(a, alpha, rSeq, qSeq, 0, 0) == 0
 //@   loop 10 invariant [scores] forall k int {aln[k]} :: 0 <= k && k < len(aln) ==> aln[k].(*featPair).score == fitOptQ(a, alpha, rSeq, qSeq, aln[k].(*featPair).a.end, aln[k].(*featPair).b.end) - fitOptQ(a, alpha, rSeq, qSeq, aln[k].(*featPair).a.start, aln[k].(*featPair).b.start)
 //@   loop 10 invariant [chain-done] forall k int, k2 int {succ(k, k2)} :: 0 <= k && k2 == k + 1 && k2 < len(aln) && (k2 < i || k > j) ==> proving(succ(k, k2)) && aln[k].(*featPair).a.end == aln[k2].(*featPair).a.start && aln[k].(*featPair).b.end == aln[k2].(*featPair).b.start
